@@ -217,11 +217,21 @@ def main(modname, argv):
         sys.exit(2)
 
     # ---- builds (from the current working tree)
+    harness_failed = None
     try:
         bins = {}
         for v in mod.builds(args.tier):
             if v.startswith('harness'):
-                bins[v] = build.harness(v.split('-', 1)[1] if '-' in v else 'rel')
+                try:
+                    bins[v] = build.harness(v.split('-', 1)[1] if '-' in v else 'rel')
+                except build.BuildError as e:
+                    # the program itself builds but the harness does not (a library interface it uses has changed): the cases
+                    # that go through the command line are still run and can still report a violation; the cases that need
+                    # the harness are inconclusive, and so is the run as a whole if nothing is reported
+                    if 'rel' not in bins or args.replay:
+                        raise
+                    harness_failed = str(e)
+                    bins[v] = '/nonexistent/verif-harness-did-not-build'
             else:
                 bins[v] = build.ska(v)
     except build.BuildError as e:
@@ -291,6 +301,8 @@ def main(modname, argv):
         if required_missing:
             agg_inconcl.append('required observation never made%s: %s' % (' (%d cases not run: time budget)' % skipped if skipped else '',
                                                                         ','.join(required_missing)))
+        if harness_failed:
+            agg_inconcl.append('the harness did not build, only the command-line cases were judged: %s' % harness_failed[:200])
         if done == 0 or evals == 0:
             agg_inconcl.append('no execution was judged')
 
